@@ -9,6 +9,8 @@
 #include "ref_format.h"
 #include "gen_text.h"
 #include <complex>
+#include <filesystem>
+#include <cerrno>
 #include <sstream>
 #include <string_theory/iostream>
 #include <string_theory/stdio>
@@ -36,7 +38,7 @@ struct Result {
 
 // extra shapes beyond rt/ref_format.h: floating point, complex, null text pointers
 static const int EXTRA_BASE = 100;
-static const int NEXTRA = 7;
+static const int NEXTRA = 9;
 
 template <typename Sink>
 static void call_any(int shape, const Values &v, const char *fmt, Sink &&sink)
@@ -56,6 +58,8 @@ static void call_any(int shape, const Values &v, const char *fmt, Sink &&sink)
     case EXTRA_BASE + 4: sink(fmt, nullw, null16, null32); return;
     case EXTRA_BASE + 5: sink(fmt, d3, v.st, v.i, d2); return;
     case EXTRA_BASE + 6: sink(fmt, v.i, d1, v.cstr, v.c32, v.b); return;
+    case EXTRA_BASE + 7: { static const std::filesystem::path shortp("a/b.txt"); sink(fmt, shortp); return; }
+    case EXTRA_BASE + 8: { static const std::filesystem::path longp("/a/rather/long/path/that/does/not/fit/a/small/buffer/caf\xC3\xA9.txt"); sink(fmt, v.i, longp, v.cstr); return; }
     default: call_shape(shape, v, fmt, nullptr, sink); return;
     }
 }
@@ -66,6 +70,8 @@ static Result run_format(int shape, const Values &v, const char *fmt, int mode)
     Result r;
     vrt::evals();
     vrt::st().assert_throws = true;
+    // whatever an unrelated earlier C library call left in errno must not change the outcome
+    { static unsigned n = 0; static const int stale[] = {0, EINVAL, ERANGE, ENOENT, EDOM}; errno = stale[n++ % 5]; }
     try {
         call_any(shape, v, fmt, [&](const char *f, auto &&...a) {
             ST::string out = mode == 0 ? ST::format(ST::assume_valid, f, a...)
@@ -246,7 +252,7 @@ static void format_case(const S &fmt, int shape, const Values &v, bool bounded =
     vrt::distinct(vrt::fnv1a(fmt.data(), fmt.size(), static_cast<uint64_t>(shape) + 101));
 }
 
-static const int DIRECTED_SHAPES[] = {0, 1, 2, 5, 9, EXTRA_BASE + 0, EXTRA_BASE + 3};
+static const int DIRECTED_SHAPES[] = {0, 1, 2, 5, 9, EXTRA_BASE + 0, EXTRA_BASE + 3, EXTRA_BASE + 7};
 
 static int random_shape(Rng &r)
 {
